@@ -79,6 +79,10 @@ class SymWorld(S.World):
     def size(self, sort):
         return S.Dim.of(sort)
 
+    def pick(self, name, src_sort=None):
+        """index array of length one holding an arbitrary fixed component number"""
+        return S.IndexArr("map", S.UNIT, [K.app(name)], name=name)
+
     # ---- spec-side linear algebra
     def inv(self, A):
         return MX.inverse_of(A)
@@ -91,6 +95,24 @@ class SymWorld(S.World):
 
     def ld_rule(self, matrix, value, lemma):
         MX.add_logdet_rule(self, matrix, value, lemma)
+
+    def ld_congruence(self, X, Y, lemma="det is a function of the matrix"):
+        """ghost step: if the kernel proves X == Y then LogDet[X] := LogDet[Y] (also for LD atoms already created)"""
+        ok = self.equal(f"hint/logdet-congruence", X, Y)
+        if not ok:
+            return False
+        key, A, occurring = MX.matrix_key(self, X)
+        rec = self.inv_registry.get(key)
+        val = MX.logdet_of(Y)
+        if rec is not None:
+            vb = val.fresh_copy()
+            bm = {}
+            for va, ma in zip(vb.axes, A.axes[:-2]):
+                bm.update(zip(va.comps, ma.comps))
+            self.ld_rules[rec["ld"]] = (occurring, K.subst(vb.expr, bm))
+        MX.add_logdet_rule(self, X, val, lemma)
+        self.hints_used.append(lemma)
+        return True
 
     def have_inverse(self, X, E, lemma):
         """ghost step `have Inv[X] == E by multiply` (DESIGN §3.4): the kernel proves E·X == I without using the
@@ -332,6 +354,11 @@ class NumWorld:
     def size(self, sort):
         return self.sizes[sort]
 
+    def pick(self, name, src_sort=None):
+        k = int(self.rng.integers(0, self.sizes[src_sort])) if src_sort else 0
+        self.inputs[name] = k
+        return self.xp.asarray([k])
+
     def inv(self, A):
         return self.xp.linalg.inv(A)
 
@@ -343,6 +370,9 @@ class NumWorld:
 
     def ld_rule(self, matrix, value, lemma):
         pass
+
+    def ld_congruence(self, X, Y, lemma=""):
+        return self.equal("hint/logdet-congruence", X, Y)
 
     def have_inverse(self, X, E, lemma):
         np = self.np
